@@ -509,10 +509,19 @@ HTML_PARTS = [b'<a href="/x">x</a>', b'<img src=y.png srcset="a.png 1x, b.png 2x
               b'<table background="t.png"><td background=u.png>', b'<body onload="location=\'/o\'">', b'<embed src=e.swf>', b'<' * 50, b'<a ' * 200,
               b'<a href="' + b'a' * 5000 + b'">', b'\x00<a href=n>', b'<param name="movie" value="m.swf">', b'<input type=image src=i.png>',
               b'<a href="x" href="y">', b'<script>' + b'"http://h.test/' * 300 + b'</script>', b'</a></b></html></html>', b'<plaintext><a href=p>',
-              b'<textarea><a href=t></textarea>', b'<meta http-equiv="refresh" content="0;url=http://[">', b'<html xmlns="x"><head profile="http://p/">']
+              b'<textarea><a href=t></textarea>', b'<meta http-equiv="refresh" content="0;url=http://[">', b'<html xmlns="x"><head profile="http://p/">',
+              # srcset edge cases: empty candidates (trailing / doubled comma), empty and white-space-only values, multi-line values
+              b'<img srcset="a.png 480w, b.png 800w,">', b'<img srcset="a.png 1x,, b.png 2x">', b'<img srcset="">', b'<img srcset="  \n ">',
+              b'<img srcset=",">', b'<source srcset="a.png\n2x,\n b.png\t3x">', b'<img srcset=" , a.png , ">',
+              # CSS escapes in style elements / attributes: ordinary, NUL, surrogate, above U+10FFFF
+              b'<style>a{b:url(img/hello\\20 world.png)} c{d:url(\\110000.png)} e{f:url(\\ffffff)}</style>',
+              b'<div style="background: url(\\d800.png) url(\\0 .png) url(\\26 x.png)">']
 CSS_DOCS = [b'body { background: url(a.png) } @import "b.css"; @import url(c.css) screen;', b'a{b:url( "d.png" )} a{b:url(\'e.png\')}',
             b'@import url("http://[");', b'@charset "bogus"; a{b:url(f.png)}', b'url(' * 500, b'@import \'' + b'g' * 5000, b'a{b:url(\\"h.png\\")}',
-            b'\xff\xfea\x00{\x00', b'/* url(i.png) */ a{b:url(data:image/png;base64,AAAA)}', b'a{b:url()} a{b:url( )} @import ;', b'@import url(\xff\xfe);']
+            b'\xff\xfea\x00{\x00', b'/* url(i.png) */ a{b:url(data:image/png;base64,AAAA)}', b'a{b:url()} a{b:url( )} @import ;', b'@import url(\xff\xfe);',
+            # escape sequences (CSS Syntax 4.3.7): space, ampersand, parenthesis, NUL, a surrogate, the largest code point, values above it, a lone backslash
+            b'a{b:url(img/hello\\20 world.png)} @import "\\26 x.css"; c{d:url(\\(y\\).png)}', b'a{b:url(\\0 z.png)} c{d:url(\\d800.png)} e{f:url(\\10ffff.png)}',
+            b'a{b:url(\\110000.png)}', b'@import url(\\ffffff);', b'a{b:url(\\FFFFFF\\110000 x)} c{d:url(q.png\\)}', b'@import "\\7fffffff.css"; a{b:url(\\']
 JS_DOCS = [b'var a = "http://h.test/a.js"; var b = \'/path/b.html\'; var c = "c.png";', b'x = "http://["; y = "//h/"; z = "\\u0068ttp://h/";',
            b'{"url": "http:\\/\\/h.test\\/j.json", "n": 5}', b'"' * 1001, b'var s = "' + b'a/' * 3000 + b'";', b'\xff\xfev\x00a\x00r\x00', b'f("a.b"); g("1.5"); h("text/html");',
            b'document.write("<a href=\\"w.html\\">");', b'var r = /"[^"]*"/; var t = `tmpl/${x}.js`;', b'"http://h.test:99999999/"; "http://%zz/"; "\\x00.js"']
